@@ -31,7 +31,7 @@ JWords(e) ==
   IN IF unb /\ ~IsFiniteLang(G) THEN U("get_words")
      ELSE IF Has(e, "exc") THEN Fl("get_words.noexc")
      ELSE IF e.status = "timeout" \/ ~e.exhausted THEN Fl("get_words.terminates")
-     ELSE LET expect == Lang(G, IF unb THEN e.K ELSE e.n) IN
+     ELSE LET expect == IF unb THEN Lang(TrimG(G), e.K) ELSE Lang(G, e.n) IN
           Chk(NoDup(e.items), "get_words.nodup") \cup Chk(ToSet(e.items) \subseteq expect, "get_words.sound")
           \cup Chk(expect \subseteq ToSet(e.items), "get_words.complete")
 
